@@ -41,6 +41,7 @@ type c13Env struct {
 	workers []*c13Worker
 	shared  []*c13Shared
 	sdirs   []string
+	joins   []*c13Join
 	saveMu  sync.Mutex
 	saves   []*c13Save
 	syncMu  sync.Mutex
@@ -282,6 +283,11 @@ func (e *c13Env) checkSave(s *c13Save, sharedFinal map[string][]byte) {
 					}
 				}
 			}
+			if s := e.doubledSuffix(p); s != "" {
+				sig += s
+			} else if !present && e.inLate(p) {
+				sig += c13NsSuffix
+			}
 			if s.final {
 				sig += ":quiescent-save"
 			}
@@ -451,6 +457,37 @@ func c13Case(run *verifkit.Run, caseNo int, rng *verifkit.Rand) {
 		e.shared = append(e.shared, sf)
 	}
 
+	// late directories: created during the activity by several workers at once
+	for k := 0; k < cfg.LateDirs; k++ {
+		base := fmt.Sprintf("j%d", k)
+		if rng.Chance(1, 3) {
+			base = e.sdirs[rng.Intn(len(e.sdirs))] + "/" + base
+		}
+		j := &c13Join{idx: k, prefixes: []string{base}}
+		for _, c := range []string{"a", "b"}[:rng.Intn(3)] {
+			j.prefixes = append(j.prefixes, j.dir()+"/"+c)
+		}
+		j.nilRet = make([]int32, len(j.prefixes))
+		np := cfg.Workers
+		if rng.Bool() {
+			np = rng.Range(2, cfg.Workers)
+		}
+		j.parts = rng.Perm(cfg.Workers)[:np]
+		if !rng.Chance(1, 3) { // else: at the very start of the streams
+			j.at = rng.Intn(cfg.OpsPer)
+		}
+		e.joins = append(e.joins, j)
+	}
+	for at := 0; at < cfg.OpsPer; at++ {
+		for _, j := range e.joins {
+			if j.at == at {
+				for _, wi := range j.parts {
+					e.workers[wi].joins = append(e.workers[wi].joins, j)
+				}
+			}
+		}
+	}
+
 	// concurrent phase ------------------------------------------------------
 	t0 := time.Now()
 	stopMon := make(chan struct{})
@@ -476,6 +513,9 @@ func c13Case(run *verifkit.Run, caseNo int, rng *verifkit.Rand) {
 			alld := append([]string{}, e.sdirs...)
 			for _, w := range e.workers {
 				alld = append(alld, w.priv)
+			}
+			for _, j := range e.joins {
+				alld = append(alld, j.dir()) // may not exist yet: not-exist is fine
 			}
 			for atomic.LoadInt32(&workersLeft) > 0 && !e.aborted() {
 				target := e.ctl.eventCount() + int64(srng.Range(15, 120))
@@ -597,6 +637,7 @@ func c13Case(run *verifkit.Run, caseNo int, rng *verifkit.Rand) {
 	}
 
 	// evidence --------------------------------------------------------------------
+	nsRaced := e.nsEvidence()
 	run.Eval(int(atomic.LoadInt64(&e.evals)))
 	c13Count(run, "runs", 1)
 	c13Count(run, "workers", cfg.Workers)
@@ -623,8 +664,8 @@ func c13Case(run *verifkit.Run, caseNo int, rng *verifkit.Rand) {
 		case e.overlap > 0:
 			ov = "1-20"
 		}
-		run.Feature(fmt.Sprintf("w=%d,bs=%d,fault=%s,shared=%d,stall=%d,reordered=%v,failed=%v,overlap=%s",
-			cfg.Workers, cfg.BlockSize, cfg.Fault, cfg.SharedFiles, cfg.StallMs, ctlCnt["putb_reordered"] > 0, ctlCnt["putb_failed"] > 0, ov))
+		run.Feature(fmt.Sprintf("w=%d,bs=%d,fault=%s,shared=%d,stall=%d,reordered=%v,failed=%v,overlap=%s,mkdirs_overlapped=%v",
+			cfg.Workers, cfg.BlockSize, cfg.Fault, cfg.SharedFiles, cfg.StallMs, ctlCnt["putb_reordered"] > 0, ctlCnt["putb_failed"] > 0, ov, nsRaced))
 	}
 	if caseNo < 3 {
 		run.Sample(map[string]interface{}{"case": caseNo, "cfg": cfg, "keep_writes": ctlCnt, "ops": e.cnt, "saves_reloaded": reloaded, "overlapping_shared_pairs": e.overlap})
